@@ -700,7 +700,7 @@ def is_index(t, name):
         return closure_over_enumerate(t, b[1]["closure"])
     if b[0] == "param" and (b[2] or "").strip() == "usize":
         return True
-    if b[0] == "let" and b[1] is not None and b[1]["k"] == "Path":
+    if b[0] in ("let", "arg") and b[1] is not None and b[1]["k"] == "Path" and ident_of(b[1]) != name:
         return is_index(t, ident_of(b[1]))
     if b[0] == "variant-payload":
         return False
